@@ -2,6 +2,7 @@
 import itertools
 
 from ..sengine import SHarness, register, shard_fn
+from .. import bigpoints
 from ..core import Run, run_shards
 from .. import gen
 
@@ -241,6 +242,7 @@ def run(tier):
                        'z3 is sound']
     h = HARNESSES[0]
     items = [(h.name, p) for p in h.points(tier)]
+    items += [(h.name, p) for p in bigpoints.big_points(h.name, tier)]
     part = run_shards(shard_fn, items)
     if part.counts.get('selftest_mutants', 0) and not part.counts.get('selftest_distinguished', 0):
         part.errors.append('oracle self-test distinguished none of the mutants')
